@@ -16,7 +16,6 @@ package base
 
 import (
 	"sync"
-	"sync/atomic"
 
 	"github.com/pkg/errors"
 
@@ -38,7 +37,9 @@ type SentinelEntry struct {
 	exitCtl sync.Once
 	// exited is set when Exit hands the pooled context back: from then on the
 	// context may belong to another entry and must not be written through this one.
-	exited int32
+	// ctxMu makes "not exited yet, so write" one step with respect to that hand-over.
+	ctxMu  sync.Mutex
+	exited bool
 }
 
 func NewSentinelEntry(ctx *EntryContext, rw *ResourceWrapper, sc *SlotChain) *SentinelEntry {
@@ -55,13 +56,23 @@ func (e *SentinelEntry) WhenExit(exitHandler ExitHandler) {
 }
 
 func (e *SentinelEntry) SetError(err error) {
-	if e.ctx != nil && atomic.LoadInt32(&e.exited) == 0 {
+	if e.ctx == nil {
+		return
+	}
+	e.ctxMu.Lock()
+	defer e.ctxMu.Unlock()
+	if !e.exited {
 		e.ctx.SetError(err)
 	}
 }
 
 func (e *SentinelEntry) SetPair(key, val interface{}) {
-	if e.ctx != nil && atomic.LoadInt32(&e.exited) == 0 {
+	if e.ctx == nil {
+		return
+	}
+	e.ctxMu.Lock()
+	defer e.ctxMu.Unlock()
+	if !e.exited {
 		e.ctx.SetPair(key, val)
 	}
 }
@@ -105,7 +116,9 @@ func (e *SentinelEntry) Exit(exitOps ...ExitOption) {
 			if err := recover(); err != nil {
 				logging.Error(errors.Errorf("%+v", err), "Sentinel internal panic in SentinelEntry.Exit()")
 			}
-			atomic.StoreInt32(&e.exited, 1)
+			e.ctxMu.Lock()
+			e.exited = true
+			e.ctxMu.Unlock()
 			if e.sc != nil {
 				e.sc.RefurbishContext(ctx)
 			}
